@@ -8,6 +8,8 @@ import (
 	"fmt"
 	"io"
 	"math/rand"
+	"os"
+	"path/filepath"
 	"strings"
 
 	mxj "github.com/clbanning/mxj/v2"
@@ -23,6 +25,15 @@ type c15 struct{}
 
 func init() {
 	register(c15{})
+}
+
+// RegisterGobTypes does what the gob documentation asks of every caller that sends nested interface values. The worker
+// calls it at start - except in half of the shards of the C17 race rounds, where the first Gob calls of the process then
+// run concurrently against an unregistered type table (whatever they return must equal the sequential result).
+var gobRegistered bool
+
+func RegisterGobTypes() {
+	gobRegistered = true
 	gob.Register(map[string]interface{}{})
 	gob.Register([]interface{}{})
 }
@@ -302,10 +313,19 @@ func c15jsonInput(c *core.Ctx, b []byte, mutated bool) {
 	for _, x := range brs[2:] {
 		x.budget += 4 * len(b)
 	}
-	if m, e := mxj.NewMapJsonReader(brs[0]); e == nil && len(m) > 0 {
+	m, e := mxj.NewMapJsonReader(brs[0])
+	if e == nil && len(m) > 0 {
 		c15reencode(c, m)
 	}
-	mxj.NewMapJsonReaderRaw(brs[1])
+	_, _, e2 := mxj.NewMapJsonReaderRaw(brs[1])
+	if _, isObj := v.(map[string]interface{}); isObj && derr == nil && gerr == nil && bytes.HasPrefix(bytes.TrimLeft(b, " \t\r\n"), []byte("{")) {
+		// the input starts with a JSON object the std decoder accepts: the reader forms decode that same object
+		c.Count("json:reader-acceptance-checked")
+		if e != nil || e2 != nil || jv.Fp(m) != jv.Fp(got) {
+			c.Violate("c15-json-reader-rejects-valid", "a JSON reader form fails (or returns another Map) on an input that starts with an object encoding/json and NewMapJson accept",
+				core.D{"input": head(string(b), 300), "input_bytes": len(b), "NewMapJsonReader_err": fmt.Sprint(e), "NewMapJsonReaderRaw_err": fmt.Sprint(e2)})
+		}
+	}
 	n := 0
 	mxj.HandleJsonReader(brs[2], func(mxj.Map) bool { n++; return n < 50 }, func(error) bool { n++; return n < 50 })
 	n = 0
@@ -314,6 +334,37 @@ func c15jsonInput(c *core.Ctx, b []byte, mutated bool) {
 		if x.over {
 			c.Violate("c15-no-termination", "a JSON reader form exceeded its Read-call budget", core.D{"form": i, "input": string(b), "reads": x.reads})
 		}
+	}
+}
+
+func head(s string, n int) string {
+	if len(s) > n {
+		return s[:n] + "..."
+	}
+	return s
+}
+
+// c15deepJSON: objects / lists nested to depths around the limits a depth counter may have (int8, uint8, encoding/json's 10000).
+func c15deepJSON(c *core.Ctx) {
+	r := c.R
+	for i := 0; i < 3; i++ {
+		d := []int{126, 127, 128, 129, 130, 254, 255, 256, 257, 300, 1000, 9999, 10000, 10001, 10002}[r.Intn(15)]
+		var b bytes.Buffer
+		list := r.Intn(3) == 0
+		if list {
+			b.WriteString(`{"a":`)
+			b.WriteString(strings.Repeat("[", d-1) + "1" + strings.Repeat("]", d-1) + "}")
+		} else {
+			b.WriteString(strings.Repeat(`{"a":`, d) + "1" + strings.Repeat("}", d))
+		}
+		if r.Intn(4) == 0 {
+			b.WriteString(` {"next":1}`)
+		}
+		c.Count("special:deep-json")
+		c.Max("max:json-depth", int64(d))
+		c15deep = true
+		c15jsonInput(c, b.Bytes(), true)
+		c15deep = false
 	}
 }
 
@@ -374,6 +425,25 @@ func c15junkPath(r *rand.Rand) string {
 
 func c15args(c *core.Ctx) {
 	r := c.R
+	if r.Intn(4) == 0 {
+		// file-name arguments are strings too: every reader returns an error for a name it cannot read
+		dir := c19scratch()
+		reg := filepath.Join(dir, "c15.regular")
+		os.WriteFile(reg, []byte("<a/>"), 0o644)
+		for _, p := range hostilePaths(dir, reg) {
+			c.Eval()
+			c.Count("args:file-names")
+			c.NonTrivial("file-name", p)
+			_, e1 := mxj.NewMapsFromXmlFile(p)
+			_, e2 := mxj.NewMapsFromXmlFileRaw(p)
+			_, e3 := mxj.NewMapsFromJsonFile(p)
+			_, e4 := mxj.NewMapsFromJsonFileRaw(p)
+			if e1 == nil || e2 == nil || e3 == nil || e4 == nil {
+				c.Violate("c15-bad-file-name-accepted", "a file reader returned no error for a name that cannot be read", core.D{"path": p, "errs": fmt.Sprint(e1, e2, e3, e4)})
+			}
+		}
+		os.Remove(reg)
+	}
 	keys := []string{"a", "b", "doc", "k", "", "-x", "#text", "*", "a.b", "[0]", "é"}
 	g := jv.GenOpt{Keys: keys, MaxFan: 3, WideProb: 50, ListInList: true, EmptyConts: true, Nulls: true, Scalars: func(r *rand.Rand) interface{} {
 		switch r.Intn(7) {
@@ -475,7 +545,10 @@ func c15args(c *core.Ctx) {
 func c15special(c *core.Ctx) {
 	r := c.R
 	var docs [][]byte
-	switch r.Intn(6) {
+	switch r.Intn(7) {
+	case 6:
+		c15deepJSON(c)
+		return
 	case 0: // deep nesting
 		depth := 5000 + r.Intn(15001)
 		var b bytes.Buffer
